@@ -1,6 +1,7 @@
 package harness
 
 import (
+	"strconv"
 	"sync"
 	"testing"
 	"testing/synctest"
@@ -273,7 +274,9 @@ func runJoinBubble(js joinScenario) result {
 	<-done
 	close(quit)
 	synctest.Wait()
-	return encodeJoin(log, -1, true)
+	res := encodeJoin(log, -1, true)
+	res.vals = append(res.vals, "goroutines", strconv.Itoa(libGoroutines()))
+	return res
 }
 
 func errCodeJoin(err error) int64 {
